@@ -3,3 +3,4 @@ open PgmVerif
 #print axioms PgmVerif.C13_do_surgery
 #print axioms PgmVerif.C13_do_acyclic
 #print axioms PgmVerif.C13_parents_adjustment
+#print axioms PgmVerif.C13_parent_adjustment_exact
